@@ -397,10 +397,18 @@ func GenAmmoFile(rng *rand.Rand, format string, maxEntries int, vidBase int) Amm
 				if rng.Intn(8) == 0 {
 					h = KV{K: "Host", V: "h" + genToken(rng, 3, "abcdef") + ".example.org"}
 				}
+				if rng.Intn(20) == 0 {
+					h.V = strings.Repeat("v", 4000+rng.Intn(6000))
+				}
 				f.Items = append(f.Items, Item{Header: &h})
 			}
 		}
 		e := Entry{URI: GenURI(rng, vidBase+i), Tag: genTag(rng)}
+		if rng.Intn(12) == 0 {
+			// a long line (4–20 KB): well below every format's documented limit, but longer
+			// than the buffers the decoders read with
+			e.URI += "&pad=" + strings.Repeat("x", 4000+rng.Intn(16000)) + "&end=1"
+		}
 		switch format {
 		case "uri":
 			e.Method = "GET"
